@@ -690,9 +690,19 @@ fn cmd_serde(a: &Args) -> i32 {
     sched::set_mode(Mode::Off);
     let n = a.u64("values", 200);
     let seed = a.u64("seed", 1) * 1000 + a.u64("shard", 0);
+    let rounds = a.u64("rounds", 0);
+    if rounds > 0 {
+        // serialization racing with stores, all three default-constructible strategies
+        sched::set_mode(if a.flag("nohooks") { Mode::Off } else { Mode::Free });
+        runner::start_watchdog(a.u64("stall_s", 300));
+        let sers = wl_serde::run_concurrent(seed, rounds, a.u64("stores", if cfg!(miri) { 5 } else { 400 }));
+        runner::count("serde.concurrent.serializations", sers);
+        runner::count("serde.concurrent.rounds", 3 * rounds);
+        sched::set_mode(Mode::Off);
+    }
     let (vals, checks) = wl_serde::run(seed, n);
     runner::with(|r| {
-        r.execs = vals;
+        r.execs = vals + 3 * rounds;
         r.ops = checks;
     });
     runner::count("serde.values", vals);
